@@ -26,5 +26,13 @@ Definition expected_writers : list string :=
 Definition writers_present : bool :=
   forallb (fun f => existsb (fun w => fst (fst w) =? f) pool_writes) expected_writers.
 
-Lemma pool_writes_locked : forallb lock_ok pool_writes && writers_present = true.
+(** check-then-act: in a function that mutates pool fields and takes the pool lock itself no read
+    of pool state (cache lookup, map index, exist / list lookup) may precede that Lock, so that the
+    check and the mutation it decides are one critical section.  The one exception is [put], whose
+    unlocked cache probe is its own atomic step of the model ([ACheck]) and whose insertion
+    re-validates under the lock. *)
+Definition read_ok (r : string * string) : bool := fst r =? "put".
+Definition reads_locked : bool := forallb read_ok reads_before_lock.
+
+Lemma pool_writes_locked : forallb lock_ok pool_writes && writers_present && reads_locked = true.
 Proof. vm_compute. reflexivity. Qed.
